@@ -1,6 +1,6 @@
-(* Proofs/TimedTyped.v — ClientImpl::query_rrset::<D> as a whole (TimedApi.v: client_rrset_timed), in
+(* Proofs/TimedTyped.v — ClientImpl::query_rrset::<D> as a whole (Timed.v: rrset_of_raw, over ANY raw query), in
    every world: refusals, and the typed result as record-set extraction of the raw result (C16). *)
-From RsdnsModel Require Import Base GenConst GenTypes GenHeader GenClient Client RecordSet Timed TimedApi.
+From RsdnsModel Require Import Base GenConst GenTypes GenHeader GenClient Client RecordSet Timed.
 From Coq Require Import ZifyBool ZifyN ZifyNat.
 Open Scope N_scope.
 
@@ -8,15 +8,15 @@ Open Scope N_scope.
    not a data class (UnsupportedClass) before anything is sent; otherwise it returns exactly what
    record-set extraction yields on the bytes the raw query returns for the same exchange — the raw
    query for D's type into a buffer of exactly the configured size — and the raw query's error as it is *)
-Theorem rrset_is_extraction_of_raw std smol q cfg jit proc bs arrs srv :
+Theorem rrset_is_extraction_of_raw {W} std q bs (w0 : W) raw :
   0 < bs -> class_is_data (tq_class q) = true ->
-  client_rrset_timed std smol q cfg jit proc bs arrs srv =
-  match client_call_timed std smol q cfg jit proc bs arrs srv with
+  rrset_of_raw std q bs w0 raw =
+  match raw bs with
   | (wire, ev, Ok d, t) => (wire, ev, from_msg d (tq_type q), t)
   | (wire, ev, r, t) => (wire, ev, retype r Panic, t)
   end.
 Proof.
-  intros Hbs Hc. unfold client_rrset_timed.
+  intros Hbs Hc. unfold rrset_of_raw.
   assert (H1 : (if std then std_rrset_refuse bs 0 0 else async_rrset_refuse bs 0 0) = false).
   { destruct std; unfold std_rrset_refuse, async_rrset_refuse; lia. }
   rewrite H1, Hc.
@@ -24,18 +24,18 @@ Proof.
   rewrite H2.
   assert (H3 : (if std then std_take_buf_len 0 bs else async_take_buf_len 0 bs) = bs) by (destruct std; reflexivity).
   rewrite H3.
-  destruct (client_call_timed std smol q cfg jit proc bs arrs srv) as [[[wire ev] r] t].
+  destruct (raw bs) as [[[wire ev] r] t].
   destruct r as [d|e| | | |]; try reflexivity.
   assert (H4 : (if std then std_rrset_parse_len else async_rrset_parse_len) (lenN d) bs = lenN d) by (destruct std; reflexivity).
   rewrite H4. unfold lenN. rewrite Nat2N.id, firstn_all. reflexivity.
 Qed.
 
-Theorem rrset_refused_sends_nothing std smol q cfg jit proc bs arrs srv :
+Theorem rrset_refused_sends_nothing {W} std q bs (w0 : W) raw :
   bs = 0 \/ class_is_data (tq_class q) = false ->
-  exists e, client_rrset_timed std smol q cfg jit proc bs arrs srv = (([], None), [], Err e, tq_start q) /\
+  exists e, rrset_of_raw std q bs w0 raw = (w0, [], Err e, tq_start q) /\
             (e = BadParam \/ e = UnsupportedClass (tq_class q)).
 Proof.
-  intros H. unfold client_rrset_timed.
+  intros H. unfold rrset_of_raw.
   assert (H1 : (if std then std_rrset_refuse bs 0 0 else async_rrset_refuse bs 0 0) = (bs =? 0)) by (destruct std; reflexivity).
   rewrite H1. destruct (bs =? 0) eqn:E.
   - eexists. split; [reflexivity|left; reflexivity].
